@@ -123,13 +123,16 @@ func (s *Server) serve(ctx context.Context, listener net.Listener, handler Modbu
 			log.Printf("modbus server connection error: %v", err)
 		}
 	}
+	// listener must be set (under lock, Shutdown and Addr read it) before OnServeFunc tells that server is running
+	s.mu.Lock()
+	s.listener = listener
+	s.mu.Unlock()
 	if s.OnServeFunc != nil {
 		// when listener is started with ":0" (random port) this will be helpful knowing where to connect
 		// and if server is listening already
 		s.OnServeFunc(listener.Addr())
 	}
 
-	s.listener = listener
 	verifPoint("serve.start", nil, 0)
 	l := onceCloseListener{Listener: listener}
 	defer l.Close()
